@@ -221,7 +221,8 @@ func reifyMap(opts *options, to reflect.Value, from *Config, validators []valida
 
 	for k, value := range fields {
 		opts.activeFields = newFieldSet(parentFields)
-		key := reflect.ValueOf(k)
+		// the key type may be one defined from string
+		key := reflect.ValueOf(k).Convert(to.Type().Key())
 
 		old := to.MapIndex(key)
 		var v reflect.Value
